@@ -63,7 +63,11 @@ def gen_system(rnd, n=None, allow_dup_sources=False, p_back=0.0):
         g = None
         if explicit:
             g = [(-1, gen_gimpl(rnd, out_universe, 100 + i))]   # explicit identity guards are plain functions: no per-class registration
-        decls.append({"related": parent, "inferential": False, "guard": g, "trans": None})
+        itrans = None
+        if explicit and rnd.random() < 0.5:
+            # an identity relation may carry its own transformer (IdentityRelation(T, relationship=g, transformer=f))
+            itrans = [(-1, {"pairs": [(x, rnd.choice(out_universe)) for x in out_universe], "tlogs": 600 + i if rnd.random() < 0.3 else None})]
+        decls.append({"related": parent, "inferential": False, "guard": g, "trans": itrans})
         types.append({"id": i, "generic": False, "contains": cont, "decls": decls, "declarative": rnd.random() < 0.5})
     for _ in range(n_inf):
         if n < 2:
